@@ -116,10 +116,11 @@ impl HttpResponse {
         let buf = buf.trim_end();
         let a: Vec<&str> = buf.splitn(3, ' ').collect();
         trace!("response={}", buf);
-        let mut ret = if a.len() == 3 && a[0].starts_with("HTTP/") {
+        // the reason phrase may be empty ("HTTP/1.1 200 ", which the trimming above turns into two parts)
+        let mut ret = if a.len() >= 2 && a[0].starts_with("HTTP/") {
             let version = a[0].into();
             let code = a[1].parse().context("failed to parse response code")?;
-            let status = a[2].into();
+            let status = a.get(2).copied().unwrap_or("").into();
             Self {
                 version,
                 code,
